@@ -76,7 +76,10 @@ func (h *Heap) Get(name string) Term {
 	case hDerived:
 		return h.base.Get(name) // not cached: base may be shared
 	case hHavoc:
-		if (h.only != nil && !h.only[name]) || vc.immutable(name) || (h.only == nil && strings.HasPrefix(name, "G|ghost.")) {
+		// a field no Go code stores to outside its allocating function keeps its value over a havoc - unless
+		// this havoc NAMES it (a modifies clause of a trusted specification: reflection-based writers such as
+		// yaml.Unmarshal store to fields no store instruction in the program mentions)
+		if (h.only != nil && !h.only[name]) || (vc.immutable(name) && !(h.only != nil && h.only[name])) || (h.only == nil && strings.HasPrefix(name, "G|ghost.")) {
 			t = h.base.Get(name)
 			break
 		}
